@@ -134,6 +134,7 @@ PROPS = {
                 "gAMA/cHRM/sBIT/sRGB/iCCP/bKGD/hIST/pHYs/text/private chunks and APNGs; distinct = distinct (input, options)",
     },
     "C07": {
+        "needs_binary": True,
         "lean": ["OxiModel.Props.C07"],
         "streams": [{"name": "corr-chunks", "quick": 1200, "thorough": 20000},
                     {"name": "corr-front", "quick": 2500, "thorough": 40000}],
@@ -168,6 +169,7 @@ PROPS = {
                 "distinct = distinct (flags) / (input, arguments)",
     },
     "C10": {
+        "needs_binary": True,
         "lean": ["OxiModel.Props.C10"],
         "streams": [{"name": "corr-chunks", "quick": 1200, "thorough": 20000},
                     {"name": "corr-front", "quick": 2500, "thorough": 40000}],
@@ -181,6 +183,7 @@ PROPS = {
         "rule": "APNGs with 0-3 extra frames, sub-rectangle frames, frames of different size cut from one and the same filtered stream and true repeats of a frame, frame data split over 1-3 fdAT chunks, default image in or out of the animation, all colour types/depths, interlaced or not x options x strip policies",
     },
     "C14": {
+        "needs_binary": True,
         "lean": ["OxiModel.Props.C14"],
         "streams": [{"name": "corr-chunks", "quick": 1500, "thorough": 25000}],
         "oracles": [{"name": "oracle-meta", "args": ["C14"], "quick": 3000, "thorough": 50000}],
